@@ -160,8 +160,8 @@ def op_text(op):
         return s.strip()
     if k in ("gread", "gwrite", "ispoisoned", "clear", "fmt"):
         return f"{k} {op[1]}"
-    if k == "fmtfail":
-        return f"fmtfail {op[1]} {op[2]}"
+    if k in ("fmtfail", "fmtpanic"):
+        return f"{k} {op[1]} {op[2]}"
     return k
 
 
